@@ -153,6 +153,16 @@ def matmul_shape(I, node, l, r):
         if len(b.axes) == 1:
             return Shape([])
         return Shape(b.axes[:-2] + rest_b, b.ell)
+    if len(b.axes) > 2 and not a.ell and not b.ell and len(a.axes) >= 2:
+        # stacks of matrices: the leading (batch) axes broadcast, the last two are the matrix axes
+        la_, lb_ = tuple(a.axes[:-2]), tuple(b.axes[:-2])
+        n_ = max(len(la_), len(lb_))
+        lead = []
+        for i_ in range(1, n_ + 1):
+            x_ = la_[-i_] if i_ <= len(la_) else ()
+            y_ = lb_[-i_] if i_ <= len(lb_) else ()
+            lead.append(y_ if x_ == () else (x_ if (y_ == () or x_ == y_) else None))
+        return Shape(tuple(lead[::-1]) + (a.axes[-2],) + rest_b)
     return Shape(a.axes[:-1] + rest_b, a.ell)
 
 
@@ -570,6 +580,8 @@ def binop(I, node, op, l, r):
         if n == 2:
             out.tags["squared"] = l
             I.emit("square", node, of=l)
+        if l.tag("lives_on") is not None and not (r.tag("kind") == "ndarray"):
+            out.tags["lives_on"] = l.tag("lives_on")      # an elementwise power of a sampled function is sampled on the same domain
         if r.tag("dim") and not r.known and l.tag("kind") != "int":
             out.tags["pow_by_extent"] = r.tag("dim")      # x ** (number of columns): a length scale raised to an array extent
     if isinstance(op, ast.Div) and l.tag("kind") == "ndarray" and not l.known and not r.known:
@@ -642,6 +654,15 @@ def frame_mul(I, node, l, r, matmul):
             I.type_error(node, "QTY", "product of two gain matrices (adaptation applied twice?)", frames=(a, b))
         return None
     fr, other = (a, r) if a is not None else (b, l)
+    if matmul and a is None and b == "TOTAL" and r.shape is not None and r.shape.rank >= 2 and l.shape is not None and l.shape.rank >= 2 \
+            and not l.tag("rows_sum_to_one") and not r.shape.ell and isinstance(r.shape.axes[-2], tuple) and r.shape.axes[-2] \
+            and not any(str(x_).startswith(("F", "#")) for x_ in r.shape.axes[-2]):
+        # (a contraction over the CHANNEL axis is the adaptation matrix applied to the total capture, K·(q + baseline): legitimate)
+        # W @ T: each row is a linear combination of baseline-including captures — the baseline is counted Σ_j W[i, j] times
+        I.type_error(node, "QTY", "rows of baseline-including (TOTAL) captures are linearly combined by a weight matrix whose rows are not "
+                                  "known to sum to one: the baseline enters the result once per combined row, scaled by the weights "
+                                  "(capture of a mixture = capture(W @ X), not W @ capture(X))", frames=(a, b))
+        return None
     if fr == "GAIN":
         ou = other.unit
         if isinstance(ou, dict) and ou.get("s", 0) == 1 and len(ou) == 1:
@@ -864,6 +885,11 @@ def subscript(I, e, b):
         I.emit("positional_pick", e, base=b, index=ci)
     if (idx.tag("cmp") is not None or idx.tag("row_mask") is not None or idx.tag("allany") is not None) and b.tag("kind") == "ndarray":
         I.emit("row_filter", e, base=b, idx=idx)
+    if idx.tag("argsort_of") is not None:
+        out.tags["reordered_by"] = idx.term           # x[np.argsort(d)]: reordered with the permutation that sorts d
+        if idx.tag("argsort_of") == b.term and b.term is not None:
+            out.tags["sorted"] = True                 # d[np.argsort(d)] is ascending
+            out.tags["sorted_by"] = idx.term
     if idx.tag("drawn_indices") or b.tag("rows_drawn"):
         out.tags["rows_drawn"] = True            # rows selected / permuted by a random draw
     if b.tag("sum_dim") is not None and ci is not None:
@@ -872,8 +898,9 @@ def subscript(I, e, b):
         out.tags.pop("maybe_zero_rows", None)        # only rows with a non-zero entry are selected
     elems = _index_elems(e)
     el0 = elems[0] if elems else None
-    if isinstance(el0, ast.Slice) and el0.upper is None and el0.lower is not None and (
-            isinstance(el0.lower, ast.UnaryOp) and isinstance(el0.lower.op, ast.USub)):
+    if isinstance(el0, ast.Slice) and el0.upper is None and el0.lower is not None and not (
+            isinstance(el0.lower, ast.Constant) and el0.lower.value in (0, None)):
+        # x[-k:] / x[a - b:] / x[k:]: the rows from some offset to the END of the leading axis
         out.tags["suffix_slice"] = (b.shape.axes[0] if (b.shape is not None and not b.shape.ell and b.shape.axes) else None) or "?"
     if b.tag("corner_cloud"):
         if isinstance(el0, ast.Slice) and (el0.lower is not None or el0.upper is not None):
@@ -1284,7 +1311,26 @@ def call_builtin(I, e, name, args, kws):
             kw2 = dict(args[0].tag("kw"))
             kw2.update(kw)
             out.tags["kw"] = kw2
+        elif args and args[0].tag("zip_items") is not None and all(
+                zi.items is not None and len(zi.items) == 2 and zi.items[0].known and isinstance(zi.items[0].const, str) for zi in args[0].tag("zip_items")):
+            # dict(zip(("lb", "ub"), values)): a table with literal keys
+            kw2 = {zi.items[0].const: zi.items[1] for zi in args[0].tag("zip_items")}
+            kw2.update(kw)
+            out.tags["kw"] = kw2
+            for zi in args[0].tag("zip_items"):
+                obj.store(zi.items[1])
         return out
+    if name == "setattr" and len(args) == 3:
+        tgt, nm, val = args
+        if tgt.tag("kind") == "self":
+            if nm.known and isinstance(nm.const, str):
+                I.emit("self_store", e, attr=nm.const, val=val)
+                if val.tag("kind") in ("dict", "list", "set"):
+                    val.tags["self_container"] = nm.const
+                I.ctx.selfenv[nm.const] = val.with_ctrl(I.fr.ctrl[-1])
+            else:
+                I.emit("self_store", e, attr="?", val=val)       # setattr(self, <computed name>, …): some field is written
+        return const(None)
     if name == "set":
         return mk(args, tags={"kind": "set", "elem": I.iter_elem(a0, None) if a0 is not None else None})
     if name in ("int", "float", "bool", "round", "abs"):
@@ -1298,8 +1344,15 @@ def call_builtin(I, e, name, args, kws):
                 out.tags["rounded"] = "nearest"
             if name == "int":
                 out.tags["kind"] = "int"
-                out.shp = out.shp | out.data
-                out.data = E
+                if not (a0.tag("kind") == "int" and a0.tag("dim") is None and a0.data and not a0.tag("floating")):
+                    # counts computed from sizes are structural; int(<an integer argument such as a seed>) stays that argument
+                    out.shp = out.shp | out.data
+                    out.data = E
+                else:
+                    for k_ in ("np_scalar", "isnum", "notnone", "notstr"):
+                        if a0.tag(k_) is not None and k_ != "np_scalar":
+                            out.tags[k_] = a0.tag(k_)
+                    out.tags["np_scalar"] = False          # int(np.int64(5)) is a Python int
                 how = a0.tag("rounded")
                 if how is None and a0.tag("floating"):
                     how = "nearest" if a0.tag("plus_half") else "trunc"      # int(x) truncates; int(x + 0.5) rounds half up (x ≥ 0)
